@@ -154,9 +154,17 @@ def ensure_fixture_facts(name, quiet=True):
         sp = os.path.join(out_dir, "STAMP")
         if os.path.exists(sp) and open(sp).read() == stamp:
             return out_dir
-        # the fixture's lock file must be the repository's
-        shutil.copyfile(os.path.join(REPO, "Cargo.lock"), os.path.join(fx, "Cargo.lock"))
-        _run_driver(fx, "fx-" + name, "", out_dir, tgt_dir, src_hash, ["--lib"], [name],
+        # the fixture is built in a scratch copy whose manifest points at the repository under analysis;
+        # its lock file must be the repository's
+        work = os.path.join(BUILD, "fx-work-" + name)
+        shutil.rmtree(work, ignore_errors=True)
+        shutil.copytree(fx, work, ignore=shutil.ignore_patterns("target", "Cargo.lock", "Cargo.toml"))
+        with open(os.path.join(fx, "Cargo.toml.in")) as f:
+            manifest = f.read().replace("@REPO@", REPO)
+        with open(os.path.join(work, "Cargo.toml"), "w") as f:
+            f.write(manifest)
+        shutil.copyfile(os.path.join(REPO, "Cargo.lock"), os.path.join(work, "Cargo.lock"))
+        _run_driver(work, "fx-" + name, "", out_dir, tgt_dir, src_hash, ["--lib"], [name],
                     [name.replace("_", "-") + "-", name + "-", "slotted-egraphs-", "slotted_egraphs-"])
         p = os.path.join(out_dir, name + ".json")
         if not os.path.exists(p):
